@@ -233,6 +233,7 @@ run_mod_op(int op, const vset_t *mods, const vset_t *abase, const vset_t *bset, 
 		for (ic = 0; ic < 3; ic ++) {
 			size_t ca = caps[ic], cm = (im & 1) ? ca : ndm;
 			if (exhaustive8 && 2 == ic) continue;	/* exhaustive operand sets: tight and double capacity */
+			if (ca > BN_MAX_DIGITS) continue;	/* full-capacity builds: the modulus is as wide as a bn_t can be */
 			if (!begin_case(mod_name[op])) continue;
 			d_op = mod_name[op]; d_a = m; d_cap = ca; d_set = "operands for this modulus (a= is the modulus)";
 			vh_publish_desc();
@@ -247,6 +248,7 @@ run_mod_op(int op, const vset_t *mods, const vset_t *abase, const vset_t *bset, 
 			for (i = 0; i < na; i ++) {
 				if (r_ndigits(&as[i]) > ca) continue;
 				for (j = 0; j < nb; j ++) {
+					if (r_ndigits(&bs[j]) > BN_MAX_DIGITS) continue;	/* full-capacity builds: not representable */
 					if (!mod_domain(op, &as[i], &bs[j], &m)) continue;
 					CALL_COUNT();
 					if (exhaustive8 && two_operand) {	/* stale fill alternates instead of running both */
